@@ -277,6 +277,17 @@ pub fn run(o: &DriveOpts, out: &mut dyn Write, tid: usize) -> Value {
                 && rec.call(&mut w, HCall { h: 0, call: Call::Data { v: 2 * i + 1 } });
         }
     }
+    if profile == "crowd" {
+        // more vertices present at once than 16 groups of 16 could hold (ungrouped vertices are bounded by the capacity only)
+        for v in 0..o.cap.saturating_sub(3) {
+            ok = ok && rec.call(&mut w, HCall { h: 0, call: Call::Add { v } });
+        }
+        for i in 0..6usize.min(o.cap / 4) {
+            let (a, b) = (o.cap - 4 - 2 * i, o.cap - 5 - 2 * i);
+            ok = ok && rec.call(&mut w, HCall { h: 0, call: Call::Bind { v1: a, v2: b, a: labels[i % labels.len().min(o.n.max(1))].clone() } });
+            ok = ok && rec.call(&mut w, HCall { h: 0, call: Call::Put { v: if i % 2 == 0 { a } else { b }, d: datas[(i + 4) % datas.len()].clone() } });
+        }
+    }
     if profile == "big16" {
         // grow one group to 16 members, by both join directions
         ok = ok && rec.call(&mut w, HCall { h: 0, call: Call::Add { v: 0 } });
@@ -583,6 +594,16 @@ pub fn run(o: &DriveOpts, out: &mut dyn Write, tid: usize) -> Value {
                 if x != y && y != z && x != z {
                     go!(Call::Add { v: x });
                     go!(Call::Data { v: x });
+                    // an unrelated pair takes the slot the group has just given back; x - on its own, never bound to the pair -
+                    // gets a datum and is read: nothing may disappear; then the pair is read away
+                    let (p_, q_) = ((off + k) % span, (off + k + 1) % span);
+                    go!(Call::Add { v: p_ });
+                    go!(Call::Add { v: q_ });
+                    go!(Call::Bind { v1: p_, v2: q_, a: labels[round % nl].clone() });
+                    go!(Call::Put { v: x, d: datas[(round + 3) % datas.len()].clone() });
+                    go!(Call::Data { v: x });
+                    go!(Call::Put { v: q_, d: datas[(round + 4) % datas.len()].clone() });
+                    go!(Call::Data { v: q_ });
                     go!(Call::Add { v: y });
                     go!(Call::Add { v: z });
                     go!(Call::Bind { v1: x, v2: y, a: labels[(round + 1) % nl].clone() });
